@@ -32,6 +32,9 @@ type Result struct {
 	// below a link or a file); if Unpack succeeds the tree must still be Tree.
 	MayError bool
 	Why      []string
+	// Root: the last directory entry that names the destination itself ("./", ".", "/"), if any:
+	// its mode and time are prescribed for the destination directory.
+	Root *Node
 }
 
 // Normalise maps an entry name to a path below dst ("" = dst itself).
@@ -59,6 +62,19 @@ func Interpret(entries []tarx.Entry) Result {
 	for _, e := range entries {
 		switch e.Type {
 		case "xglobal":
+			// nothing is extracted for it; Unpack may still refuse a name that runs through a link or a file
+			if q := Normalise(e.Name); strings.Contains(q, "/") {
+				for anc := q[:strings.LastIndex(q, "/")]; anc != ""; {
+					if n, ok := r.Tree[anc]; ok && n.Kind != "dir" {
+						may("global header named below a " + n.Kind)
+					}
+					if i := strings.LastIndex(anc, "/"); i >= 0 {
+						anc = anc[:i]
+					} else {
+						anc = ""
+					}
+				}
+			}
 			continue
 		case "hardlink", "fifo", "char", "block":
 			r.MustError = true
@@ -71,6 +87,8 @@ func Interpret(entries []tarx.Entry) Result {
 			// metadata is excluded from the comparison
 			if e.Type != "dir" {
 				may("non-directory entry for the destination itself")
+			} else {
+				r.Root = &Node{Kind: "dir", Perm: e.Mode & 0777, MtimeNs: MtimeNs(e), Explicit: true}
 			}
 			continue
 		}
